@@ -367,6 +367,29 @@ def r5_identifier_start_sets(ctx: Ctx) -> None:
     identifier_start_sets(ctx)
 
 
+def r6_label_vs_assign_lookahead(ctx: Ctx) -> None:
+    """`name:` is a label and `name:=` an assignment, with or without a space before `:=`: lex_identifier decides by looking at the
+    character right after the colon, i.e. `peek()` for the colon and `peek(1)` for the next one (peek(k) reads input[pos + k])."""
+    li = ctx.repo.func(SST, "lex_identifier")
+    pk = ctx.repo.func("a816.parse.scanner", "Scanner.peek")
+    ok_pk = any(isinstance(n, ast.Subscript) and unparse(n) == f"self.input[self.pos + {pk.params()[1]}]" for n in ast.walk(pk.node)) and \
+        pk.node.args.defaults and unparse(pk.node.args.defaults[0]) == "0"
+    if not ok_pk:
+        raise AnalysisError("Scanner.peek: expected `self.input[self.pos + k]` with k defaulting to 0")
+    tests = [n for n in walk_no_nested(li.node) if isinstance(n, ast.If) and "':'" in unparse(n.test) and "'='" in unparse(n.test)]
+    if len(tests) != 1:
+        raise AnalysisError("lex_identifier: label / assignment look-ahead not found")
+    offs = {}
+    for c in ast.walk(tests[0].test):
+        if isinstance(c, ast.Compare) and isinstance(c.left, ast.Call) and call_name(c.left) == "s.peek" and isinstance(c.comparators[0], ast.Constant):
+            k = 0 if not c.left.args else getattr(c.left.args[0], "value", None)
+            offs[c.comparators[0].value] = (k, type(c.ops[0]).__name__)
+    if set(offs) != {":", "="}:
+        raise AnalysisError(f"lex_identifier: look-ahead `{unparse(tests[0].test)[:60]}` not modelled")
+    ctx.check(offs[":"] == (0, "Eq") and offs["="] == (1, "NotEq"), "lex_identifier:label-lookahead",
+              f"a label is `:` at the cursor not followed directly by `=`; the test reads {offs}")
+
+
 def rm_no_process_lifetime_results(ctx: Ctx) -> None:
     """memoising decorators, module-level stores and mutable defaults on this property's mechanism (shared rule, caches.py)"""
     from ..caches import state_rule
@@ -381,4 +404,4 @@ def ru_names_bound(ctx: Ctx) -> None:
     names_rule(ctx)
 
 
-RULES = [r1_case_fold_before_keying, r2_skip_sets, r3_include_is_transparent, r4_search_results_checked, r5_identifier_start_sets, rm_no_process_lifetime_results, ru_names_bound]
+RULES = [r1_case_fold_before_keying, r2_skip_sets, r3_include_is_transparent, r4_search_results_checked, r5_identifier_start_sets, r6_label_vs_assign_lookahead, rm_no_process_lifetime_results, ru_names_bound]
